@@ -33,6 +33,38 @@ TRUSTED = ["Spec/Rfc8259.lean is the RFC 8259 grammar (by inspection)", "Python'
            "glibc snprintf/strtod (compared with the exact Lean reference on every double)"]
 DEFECTS = []
 KNOWN = []
+# Scope note (not a defect of the code as the property is read here, recorded so that the reader of a replay is not surprised): string and key
+# bytes >= 0x80 are copied verbatim, so a tree holding a string that is not UTF-8 (witness: `ser 0 s80` -> the 3 bytes 22 80 22) serializes to a
+# text that denotes the tree byte for byte (checked with Python's json on a latin-1 view and with the Lean reader on the Doc level) but is not
+# UTF-8 and hence not RFC 8259; the check demands `text is UTF-8  <=>  every string and key is UTF-8` on every case, both directions.
+
+MANIFEST = dict(
+    text="Lean 4 theorems (Props/C02.lean) over a checked-C model of the serializer of json_object.c (Model/Serialize.lean: json_escape_str with its "
+         "start_offset batching, int formatting in sbuf[21], json_object_double_to_json_string_format on a 128-byte buffer model - comma->point, "
+         "looks_numeric, the \".0\" suffix and its guard, NOZERO trimming, truncation -, retained number text, object/array layout for SPACED / PRETTY / "
+         "PRETTY_TAB, COLOR escapes; libc's %.17g is a parameter), for every flag word (all 64 combinations) and every API-built tree (any byte strings incl. "
+         "NUL and invalid UTF-8, any int64/uint64, any finite double whose %.17g text has the checked shape, any nesting below 2^30): ser_escape_bytes / "
+         "ser_escape_items (the escape loop never faults and emits exactly one specified piece per input byte, for all 256 byte values; the pieces are RFC "
+         "string items that denote the bytes), ser_no_fault, ser_no_nul + ser_strlen_eq_length (for ALL trees and libc outputs: no NUL in the text, strlen = "
+         "reported length), ser_double_post (for every %.17g-shaped text and both NOZERO values: no buffer overrun, output = text or text+\".0\", NOZERO is the "
+         "identity), ser_is_doc (the colour-stripped output is Doc.text of the explicitly constructed RFC 8259 document docOf, which is well-formed; string bytes "
+         ">= 0x80 are copied verbatim so the text is RFC 8259 exactly when strings are UTF-8), ser_denotes (that document denotes the tree: ints by value, doubles "
+         "by bit pattern under the named libc hypothesis strtod(emitted text) = d, strings by bytes, members in order), ser_flags_ws_only (any two flag words give "
+         "the same token values; identical token spellings when NOSLASHESCAPE agrees), roundtrip_of_parse_valid (RoundtripStatement - re-parse with depth 32 "
+         "succeeds at the end of the text with an equal tree and re-serialization reproduces the bytes - follows from C01's parse_valid, carried as the named "
+         "hypothesis ParseValidHyp until Props/C01 provides it) and roundtrip_partial (null/true/false proved on the tokener machine itself). The model is tied "
+         "to the source by literals and statement shapes regenerated from json_object.c on every run (colour escapes, json_hex_chars, buffer sizes, the \".0\" "
+         "guard, the NOZERO loop condition, the stored-length string call: src_shape) and by a differential run of model, specification (Lean RFC 8259 reader + "
+         "docOf + denote), Python's json module and the ASan/UBSan-built implementation on generated trees x flags, including re-parse by json_tokener, "
+         "json_object_equal, re-serialization, and glibc %.17g/strtod against the exact Lean reference.",
+    note="Trusted: Lean kernel + propext/Classical.choice/Quot.sound; Spec/Rfc8259.lean as the reading of RFC 8259; tools/extract; harness/ser.c + Driver/Ser.lean; "
+         "glibc snprintf/strtod (hypotheses g17Shape / roundTrips, compared with Libc/Dbl.lean on every double of every run); printbuf appends succeed (C08/C19). "
+         "The model is hand-written: theorems are about the model, the correspondence run is testing. roundtrip for strings, numbers and containers rests on C01's "
+         "parse_valid (hypothesis ParseValidHyp) and, until that is closed, on the differential `rt` runs. NaN/Infinity, custom double formats "
+         "(json_c_set_serialization_double_format), custom serializers and junk retained text are outside the property (model correspondence only).",
+    technique="Lean 4 proof (per-byte refinement of the escape loop, buffer-level lemmas for the double post-processing, mutual induction over trees against an "
+              "RFC 8259 grammar datatype) + four-way correspondence run (implementation / Lean model / Lean specification / Python json)",
+    design="6/C02")
 
 FLAG_BITS = dict(SPACED=1, PRETTY=2, NOZERO=4, PRETTY_TAB=8, NOSLASH=16, COLOR=32)
 ALL_FLAGS = list(range(64))
